@@ -61,6 +61,11 @@ CHECKS['C07'] = ('exploration', 'bounded exhaustive enumeration of until()/run(t
     '(block leaves at the earlier of trigger and completion, ties open), the block never raises its own signal, no child code runs after the leave, the tail is undisturbed, nothing runs later than till.',
     'Trusts vk/clockmodel.py; trigger times of value-based notifications are read from the observed order of helper records. One open known finding (until(connective) false on entry).',
     'DESIGN.md section 3 C07')
+CHECKS['C11'] = ('fault_enumeration', 'exhaustive fault injection (cancel at every activation boundary of every consumer, swept until-interrupt/close, swept close moment) into enumerated producer/consumer programs on the real Channel vs. per-consumer expected sequences',
+    'All programs of 1-2 producers and 1-3 consumers (fast/slow/leaving iteration, single await, late subscription) on one Channel are executed fault-free and with one injected cancel / until-interrupt / close on any consumer at every boundary resp. queue position; '
+    'each consumer must receive exactly the puts between its subscription and its leave, once, in put order, at the right time; consumers that were not hit receive everything; close semantics are checked.',
+    'Trusts the sequence oracle in vk/checks/c11.py; one channel, <= 2x2 messages, <= 3 consumers, one fault.',
+    'DESIGN.md section 3 C11')
 PENDING = {}
 
 def main():
